@@ -677,7 +677,7 @@ def chunk_roots(fx, f, op):
 
 def trace(fx, ck, pre, control):
     ck.rule("T1.trace", "the trace builder lists the current frame first, then the trampoline stack from its top; every frame is located at ip - 1 of its "
-                        "own chunk and takes file, line and column from that chunk / span", floor=3)
+                        "own chunk and takes file, line and column from that chunk / span", floor=2)
     builders = []
     for p, f in sorted(fx.fns.items()):
         if f.closure or (control and not p.startswith("c20::")):
@@ -689,7 +689,8 @@ def trace(fx, ck, pre, control):
     # frame constructors: the builder itself or helpers it calls (a frame may be built by `stack_frame_at(chunk, ip)`)
     ctors = []
     for bf in builders:
-        cand = [bf] + [fx.fns[t[1]["d"]] for bi, t in bf.calls() if t[1].get("local") and t[1].get("d") in fx.fns]
+        # (the helper may be called from a closure of the builder: `.filter_map(|(chunk, ip)| self.describe_frame(chunk, ip))`)
+        cand = [bf] + [fx.fns[t[1]["d"]] for g0 in fx.body_group(bf) for bi, t in g0.calls() if t[1].get("local") and t[1].get("d") in fx.fns]
         for g in cand:
             if any(s[0] == "a" and s[2][0] == "agg" and s[2][1].get("p", "").endswith("StackFrame") for bl in g.blocks for s in bl["s"]) and g not in ctors:
                 ctors.append(g)
